@@ -198,8 +198,8 @@ def judge(v, c, res):
 
 
 # ------------------------------------------------------------------ the command-line client, end to end
-def cli_cases(v, wd):
-    """`rip tasks list` against a store left behind by a dead authority must start an authority and answer."""
+def build_rip():
+    """The real `rip` binary (no cfg flag), built from the working tree."""
     from ..common import HARNESS, REPO
     target = os.path.join(HARNESS, "target", "cli")
     env = dict(os.environ, CARGO_TARGET_DIR=target, CARGO_NET_OFFLINE="true")
@@ -208,7 +208,204 @@ def cli_cases(v, wd):
     if p.returncode != 0:
         print(p.stdout[-3000:])
         die_tool("cargo build -p rip-cli failed")
-    rip = os.path.join(target, "debug", "rip")
+    return os.path.join(target, "debug", "rip")
+
+
+# ---- the waiting client against a scripted live authority
+# One real `rip tasks list` waits while this process plays the authority: it owns lock.json (its pid is alive) and takes
+# the file through the states an authority goes through (created but not yet written = P, record written = F, endpoint
+# advertised but not answering = MU, advertised and answering = M) and through a hand-over to a second authority (X: the
+# lock file is replaced by a new, not yet written one without ever being absent).  The player advances only once the
+# client has read the current file (atime > mtime, relatime) and a minimum time has passed, so what the client observed
+# is known.  AuthorityCli.tla abstracts the client's grace timer as "a half-written lock is only cleaned when its creator
+# is dead"; every scripted creator is alive and every half-written phase is shorter than the code's 1 s grace, so the
+# client must never remove or replace the lock, never start a server, and must attach to the endpoint once advertised.
+WATCH_SCRIPTS = {
+    # id: phases
+    "w_plain": [("P", 250, 600), ("F", 500), ("M",)],
+    "w_handover_after_slow_start": [("P", 300, 600), ("F", 1300), ("X", 400, 600), ("F", 300), ("M",)],
+    "w_three_handovers": [("P", 450, 600), ("F", 600), ("X", 450, 600), ("F", 600), ("X", 450, 600), ("F", 300), ("M",)],
+    "w_unreachable_meta_then_handover": [("P", 350, 600), ("F", 300), ("MU", 1200), ("MD", 300), ("X", 450, 600), ("F", 300), ("M",)],
+    "w_full_first_then_handover": [("F", 1400), ("X", 450, 600), ("F", 300), ("M",)],
+    "w_empty_file_handover": [("P0", 300, 600), ("F", 1300), ("X0", 400, 600), ("F", 300), ("M",)],
+}
+
+
+def cli_watch_cases(v, wd, rip, ids=None):
+    import threading, http.server
+    hits = []
+
+    class H(http.server.BaseHTTPRequestHandler):
+        def do_GET(self):
+            hits.append((time.time(), self.path))
+            body = b"[]" if self.path.startswith("/tasks") else b"{}"
+            self.send_response(200)
+            self.send_header("content-type", "application/json")
+            self.send_header("content-length", str(len(body)))
+            self.end_headers()
+            self.wfile.write(body)
+
+        def log_message(self, *a):
+            pass
+
+    srv = http.server.ThreadingHTTPServer(("127.0.0.1", 0), H)
+    threading.Thread(target=srv.serve_forever, daemon=True).start()
+    endpoint = f"http://127.0.0.1:{srv.server_address[1]}"
+    me = os.getpid()
+    n_run = 0
+    for sid, phases in WATCH_SCRIPTS.items():
+        if ids and sid not in ids:
+            continue
+        n_run += 1
+        root = os.path.join(wd, f"watch-{sid}")
+        shutil.rmtree(root, ignore_errors=True)
+        data, ws = os.path.join(root, "data"), os.path.join(root, "ws")
+        adir = os.path.join(data, "authority")
+        os.makedirs(adir)
+        os.makedirs(ws)
+        lockf, metaf, tmpf = os.path.join(adir, "lock.json"), os.path.join(adir, "meta.json"), os.path.join(root, "next-lock")
+        rec = json.dumps({"pid": me, "started_at_ms": int(time.time() * 1000), "workspace_root": ws}) + "\n"
+        mu = threading.Lock()
+        cur = {"ino": None, "born": 0.0, "state": "-", "phase": -1}
+        events, stop = [], threading.Event()
+        del hits[:]
+
+        def watcher():
+            while not stop.is_set():
+                with mu:
+                    if cur["ino"] is not None:
+                        try:
+                            ino = os.stat(lockf).st_ino
+                        except FileNotFoundError:
+                            ino = None
+                        if ino != cur["ino"]:
+                            events.append({"t": time.time(), "phase": cur["phase"], "state": cur["state"], "age_ms": int((time.time() - cur["born"]) * 1000),
+                                           "what": "removed" if ino is None else "replaced"})
+                            cur["ino"] = None      # report once
+                time.sleep(0.004)
+
+        def observed(path):
+            try:
+                st = os.stat(path)
+                return st.st_atime_ns > st.st_mtime_ns
+            except FileNotFoundError:
+                return True
+
+        def hold(path, min_ms, max_ms):
+            """wait until the client has read `path` since our last write and min_ms have passed (at most max_ms)."""
+            t0 = time.time()
+            seen = False
+            while (time.time() - t0) * 1000 < max_ms:
+                seen = seen or observed(path)
+                if seen and (time.time() - t0) * 1000 >= min_ms:
+                    break
+                if cur["ino"] is None and cur["phase"] >= 0 and events:
+                    break
+                time.sleep(0.005)
+            return seen
+
+        def new_instance(content, state, idx):
+            with open(tmpf, "w") as f:
+                f.write(content)
+            with mu:
+                os.rename(tmpf, lockf)
+                cur.update(ino=os.stat(lockf).st_ino, born=time.time(), state=state, phase=idx)
+
+        # the first file exists before the client starts
+        th = threading.Thread(target=watcher, daemon=True)
+        e = dict(os.environ, RIP_DATA_DIR=data, RIP_WORKSPACE_ROOT=ws, RUST_BACKTRACE="0")
+        client = None
+        seen_log = []
+        t_start = time.time()
+        for idx, ph in enumerate(phases):
+            if events:
+                break
+            k = ph[0]
+            if k in ("P", "P0", "X", "X0"):
+                new_instance("" if k.endswith("0") else '{"pid":', "half-written", idx)
+            elif k == "F":
+                if cur["ino"] is None:
+                    new_instance(rec, "written", idx)
+                else:
+                    with mu:
+                        with open(lockf, "w") as f:      # in place: same file, as the authority's write_all
+                            f.write(rec)
+                        cur.update(state="written", phase=idx)
+            elif k == "MU":
+                with open(metaf + ".tmp", "w") as f:
+                    f.write(json.dumps({"endpoint": "http://127.0.0.1:9", "pid": me, "started_at_ms": 1, "workspace_root": ws}))
+                os.rename(metaf + ".tmp", metaf)
+                with mu:
+                    cur.update(state="written+advertised(unreachable)", phase=idx)
+            elif k == "MD":
+                os.remove(metaf)
+                with mu:
+                    cur.update(state="written", phase=idx)
+            elif k == "M":
+                with open(metaf + ".tmp", "w") as f:
+                    f.write(json.dumps({"endpoint": endpoint, "pid": me, "started_at_ms": 1, "workspace_root": ws}))
+                os.rename(metaf + ".tmp", metaf)
+                with mu:
+                    cur.update(state="serving", phase=idx)
+            if client is None:
+                th.start()
+                client = subprocess.Popen([rip, "tasks", "list"], env=e, stdout=subprocess.PIPE, stderr=subprocess.PIPE, text=True)
+            if k == "M":
+                break
+            if k in ("P", "P0", "X", "X0"):
+                seen_log.append((k, hold(lockf, ph[1], ph[2])))
+            elif k == "F":
+                seen_log.append((k, hold(lockf, ph[1], 3000)))
+            elif k == "MU":
+                seen_log.append((k, hold(metaf, ph[1], 3000)))
+            elif k == "MD":
+                seen_log.append((k, hold(lockf, ph[1], 3000)))
+        try:
+            so, se = client.communicate(timeout=15)
+        except subprocess.TimeoutExpired:
+            client.kill()
+            so, se = client.communicate()
+        stop.set()
+        th.join()
+        spawned_log = os.path.exists(os.path.join(adir, "authority.log"))
+        # servers the client started (none expected): find them by their environment, stop them
+        strays = []
+        for pid in os.listdir("/proc"):
+            if pid.isdigit() and int(pid) != me:
+                try:
+                    envb = open(f"/proc/{pid}/environ", "rb").read()
+                except Exception:
+                    continue
+                if ("RIP_DATA_DIR=" + data).encode() in envb.split(b"\0"):
+                    strays.append(int(pid))
+        for pid in strays:
+            try:
+                os.kill(pid, signal.SIGKILL)
+            except ProcessLookupError:
+                pass
+        attached = any(p_.startswith("/openapi.json") for _, p_ in hits)
+        case = {"engine": "cli-watch", "script": sid, "phases": phases}
+        v.add_eval({"cli_watch": sid}, True)
+        unobserved = [k for k, s_ in seen_log if not s_]
+        if events:
+            ev = events[0]
+            v.violation(f"waiting client, script {sid}: the client {ev['what']} lock.json of a live authority (pid alive, file {ev['state']}, "
+                        f"{ev['age_ms']} ms old, inside the 1 s grace) in phase {ev['phase']} {phases[ev['phase']][0]}"
+                        + ("; it then started another `rip serve`" if spawned_log or strays else ""), dict(case, event=ev))
+        elif spawned_log or strays:
+            v.violation(f"waiting client, script {sid}: the client started a server although lock.json was never absent and its owner is alive", case)
+        elif not attached:
+            v.violation(f"waiting client, script {sid}: the live authority advertised {endpoint} but the client never attached (rc {client.returncode}: {se.strip()[:160]})", case)
+        if unobserved:
+            v.cov.setdefault("cli_watch_phases_not_observed_by_client", []).append({sid: unobserved})
+        log(f"[cli-watch] {sid}: {'VIOLATION' if events or spawned_log or strays or not attached else 'ok'} in {time.time() - t_start:.1f}s (phases seen by the client: {seen_log})")
+        shutil.rmtree(root, ignore_errors=True)
+    srv.shutdown()
+    v.cov["cli_watch_scripts"] = n_run
+
+
+def cli_cases(v, wd, rip):
+    """`rip tasks list` against a store left behind by a dead authority must start an authority and answer."""
     started = []
     for st, clients in [(s_, n) for s_ in ("none", "dead_lock", "dead_lock_meta", "dead_partial", "dead_meta", "dead_partial_meta") for n in (1, 2)]:
         root = os.path.join(wd, f"cli-{st}-{clients}")
@@ -311,8 +508,11 @@ def run(tier, seed):
     if r.violated:
         v.violation("client never attaches from dead_partial_meta (TLC)", {"engine": "tlc", "cfg": "AuthorityCli_wedge.cfg"},
                     key="D20b-cli-never-recovers-half-written-lock-next-to-dead-meta")
+    # ---- the real client binary: waiting on a scripted live authority (both tiers), leftover states end to end (thorough)
+    rip = build_rip()
+    cli_watch_cases(v, wd, rip, ids=None if thorough else ("w_plain", "w_handover_after_slow_start", "w_unreachable_meta_then_handover", "w_empty_file_handover"))
     if thorough:
-        cli_cases(v, wd)
+        cli_cases(v, wd, rip)
     g = tlc.run("GenAuthority", "GenAuthority_t.cfg", workers=4, timeout=1200, heap="8g")
     v.add_tlc(g, "GenAuthority: every complete behaviour of 2 contenders from every leftover state (as implemented), with the predicted files after each step")
     if g.errors or not g.cases:
@@ -374,6 +574,13 @@ def replay(path, seed):
     with open(path) as f:
         rep = json.load(f)
     wd = workdir(PROP + "-replay")
+    if rep["case"].get("engine") == "cli-watch":
+        v = Verdict(PROP, "replay", seed)
+        cli_watch_cases(v, wd, build_rip(), ids=(rep["case"]["script"],))
+        if v.violations:
+            print(f"VIOLATION property={PROP} replay={path}")
+            return 1
+        return 0
     case = rep["case"]["case"]
     res = run_harness("auth", [case], wd, "replay")[0]
     n_ok = len([p for p, r in res["results"].items() if r and r.get("ok")])
